@@ -1281,6 +1281,7 @@ let run_case (line : string) (toks : string list) : string =
      call sequence of the adapter, which the model does not predict: "~" = not compared, judged by the predicate only *)
   | ["savesys"; _; _; _; _; _] -> "~"
   | ["savetrace"; _; n] -> run_savetrace n
+  | "stressp" :: _ -> "ok"  (* pattern-heavy model, no writer: every concurrent decision equals the single-thread one *)
   | "stress" :: _ -> "ok"   (* serial oracle: every concurrent decision is a serial one, all threads finish *)
   | [("csv" | "esc" | "rmc" | "csvf" | "ini" | "mdl" | "totext") as kind; t] -> run_txt kind t
   | ["csvx"; t; _] -> run_txt "csv" t
@@ -1316,6 +1317,7 @@ let pred_case (line : string) (toks : string list) (impl : string) : string =
     (match pred_savecrash o n impl, List.assoc_opt "res" m, List.assoc_opt "file" m with
      | "1", Some "ok", Some f -> b01 (f = enc_rules (dec_rules n))
      | v, _, _ -> v)
+  | "stressp" :: _ -> if impl = "SKIPPED-after-HANG" then "-" else b01 (impl = "ok")
   | "stress" :: _ -> if impl = "SKIPPED-after-HANG" then "-" else b01 (impl = "ok")
   | "pm" :: fn :: k :: pat :: rest ->
     (* totality for every request-side key; documented meaning inside the grammar *)
